@@ -106,6 +106,13 @@ Section c07.
   | td_direct t kt deps d : g !! t = Some (kt, deps) -> d ∈ deps -> tdep t d
   | td_trans t kt deps x d : g !! t = Some (kt, deps) -> x ∈ deps -> tdep x d -> tdep t d.
 
+  Lemma tdep_trans_r t x k deps d : tdep t x -> g !! x = Some (k, deps) -> d ∈ deps -> tdep t d.
+  Proof.
+    intros Htd Hg Hd. induction Htd as [t kt tdeps x Hgt Hx|t kt tdeps y x Hgt Hy Htd IH].
+    - eapply td_trans; [exact Hgt|exact Hx|]. by eapply td_direct.
+    - eapply td_trans; [exact Hgt|exact Hy|]. by apply IH.
+  Qed.
+
   (* a target at or above a dependency that never succeeded can never be acknowledged for both kinds *)
   Lemma blocked w s d kd ddeps :
     reachable fx w g roots s -> g !! d = Some (kd, ddeps) -> kd <> AAggregate -> ObSucc d ∉ hist s ->
